@@ -5,6 +5,7 @@ from abc import ABC
 from dataclasses import dataclass, field
 from typing import Annotated, ClassVar
 
+from geneticengine.grammar.decorators import abstract
 from geneticengine.grammar.metahandlers.ints import IntRange
 
 
@@ -63,6 +64,34 @@ class Unit(Node):
     """... and one without any annotation"""
 
 
+@abstract
+@dataclass
+class VarBase(Node):
+    """abstract, and it declares the constructor its productions share"""
+    index: Annotated[int, IntRange(0, 3)]
+
+
+class InputVar(VarBase):
+    """a production that INHERITS its constructor"""
+
+
+class StateVar(VarBase):
+    pass
+
+
+class Ident(Node, str):
+    """a constant production that is also a str (prints as text): its first base is the grammar symbol"""
+
+
+class Tok(str):
+    """a field-less node class derived from a builtin value type, used as a field type: one node, one level, like any other"""
+
+
+@dataclass
+class Read(Node):
+    name: Tok
+
+
 def _column(i: int):
     """one class per column, all made by the same factory: same module, same qualified name, different classes"""
     @dataclass
@@ -74,4 +103,6 @@ def _column(i: int):
 COLUMNS = [_column(i) for i in range(3)]
 
 GRAMMARS = [([Lit, Memo, Pair], Node), ([Lit, Memo], Node), ([Lit, Memo, Pair, Top], Top), ([Lit, Block, Pair], Node),
-            ([Lit, Pair] + COLUMNS, Node), ([Zero, Pair, Memo], Node), ([Pair, Zero, Unit, Lit], Node), ([Pair, Unit], Node)]
+            ([Lit, Pair] + COLUMNS, Node), ([Zero, Pair, Memo], Node), ([Pair, Zero, Unit, Lit], Node), ([Pair, Unit], Node),
+            ([Lit, Pair, InputVar, StateVar, VarBase], Node), ([Pair, InputVar, VarBase], Node), ([Pair, Ident, Lit], Node), ([Pair, Ident], Node),
+            ([Read, Pair, Tok], Node), ([Read, Tok, Lit, Pair], Node)]
